@@ -30,6 +30,7 @@ type WorldOptions struct {
 	ListMax       int // upper bound for generated list lengths (default 3)
 	EntitiesMax   int // upper bound for entities per Node type (default 4)
 	Subscriptions bool
+	InputArgs     bool // string fields with an argument filter: [FilterIn!] (input object with lists and a recursive field)
 	UnionBias     bool // a third of the Node-type fields are of the union type
 }
 
@@ -197,6 +198,13 @@ func NewWorld(rng *rand.Rand, opt WorldOptions) *World {
 		}
 		return ""
 	}
+	ensureFilter := func(s *Service) {
+		if s.Def("FilterIn") == nil {
+			s.Defs = append(s.Defs, &Def{Kind: "INPUT_OBJECT", Name: "FilterIn", Fields: []Field{
+				{Name: "q", Type: "String"}, {Name: "limit", Type: "Int"}, {Name: "tags", Type: "[String!]"},
+				{Name: "grid", Type: "[[Int]]"}, {Name: "and", Type: "[FilterIn!]"}, {Name: "not", Type: "FilterIn"}}})
+		}
+	}
 	for ti, tn := range w.NodeType {
 		nf := 1 + rng.Intn(4)
 		for j := 0; j < nf; j++ {
@@ -209,6 +217,10 @@ func NewWorld(rng *rand.Rand, opt WorldOptions) *World {
 			fd := Field{Name: f.name, Type: typeOf(kind, f.to)}
 			if f.arg {
 				fd.Args = []Arg{{Name: "a", Type: "Int"}}
+			}
+			if opt.InputArgs && kind == fkStr && rng.Intn(2) == 0 {
+				fd.Args = append(fd.Args, Arg{Name: "filter", Type: "[FilterIn!]"})
+				ensureFilter(s)
 			}
 			d.Fields = append(d.Fields, fd)
 			nodeFields[tn] = append(nodeFields[tn], f)
@@ -340,6 +352,10 @@ func NewWorld(rng *rand.Rand, opt WorldOptions) *World {
 			}
 			if kind == fkRefs && rng.Intn(3) == 0 {
 				fd.Args = []Arg{{Name: "n", Type: "Int", Default: "2"}}
+			}
+			if opt.InputArgs && kind == fkStr && rng.Intn(2) == 0 {
+				fd.Args = append(fd.Args, Arg{Name: "filter", Type: "[FilterIn!]"})
+				ensureFilter(s)
 			}
 			q.Fields = append(q.Fields, fd)
 			w.Store.Roots["Query"][fd.Name] = mkValue(kind, to, fd.Name)
